@@ -127,12 +127,56 @@ def run(chk):
     e8.mul_identity(chk, P.methods["__mul__"])
     e8.scalar_siblings(chk, P)
     run_FF9(chk)
+    run_FF10(chk)
 
     from . import e3 as _e3
     _e3.run_I5(chk, ("yastn.tn.mps",), floor=1)
     from . import e10
     e10.run_U(chk, ("yastn.tn.mps._mps_obc", "yastn.tn.mps._mps_parent", "yastn.tn.mps._compression", "yastn.tn.mps._initialize", "yastn.tn.mps._measure", "yastn.tn.mps._env"), floor1=5, floor2=1)
 
+
+def run_FF10(chk):
+    """FF10: (i) a sum over the member environments counts every member exactly once: a method of Env_sum that starts its accumulator from
+    member 0 (`tmp = self.envs[0].m(..)`) adds the members `self.envs[1:]`, one that starts from an empty accumulator adds all of them
+    (sibling agreement of Heff0/1/2 and project_ket_on_bra_1/2).  (ii) `np.number * psi` arrives in __array_ufunc__ and is handed to
+    __mul__ *unchanged*: a conversion on the way (float(), .real, abs()) silently drops the imaginary part of a complex scalar."""
+    prog = chk.prog
+    chk.rule("FF10", "sums over member environments count each member once; numpy scalars reach __mul__ unchanged", floor=5)
+    es = prog.module(ENV).classes.get("Env_sum")
+    chk.require(es is not None, "Env_sum not found")
+    for name, f in es.methods.items():
+        if f.cls is not es:
+            continue
+        me = f.params[0]
+        loops = [n for n in ast.walk(f.node) if isinstance(n, ast.For) and A.text(n.iter).startswith(f"{me}.envs")]
+        init0 = [n for n in ast.walk(f.node) if isinstance(n, ast.Assign) and isinstance(n.value, ast.Call) and A.text(n.value.func).startswith(f"{me}.envs[0].")]
+        for lp in loops:
+            adds = [n for n in ast.walk(lp) if isinstance(n, (ast.Assign, ast.AugAssign)) and any(isinstance(x, ast.Call) and isinstance(x.func, ast.Attribute)
+                    and isinstance(x.func.value, ast.Name) and x.func.value.id == A.text(lp.target) for x in ast.walk(n))]
+            acc = [n for n in adds if (isinstance(n, ast.AugAssign) and isinstance(n.op, ast.Add)) or (isinstance(n, ast.Assign) and isinstance(n.value, ast.BinOp)
+                   and isinstance(n.value.op, ast.Add) and A.text(n.targets[0]) in (A.text(n.value.left), A.text(n.value.right)))]
+            if not acc:
+                continue
+            accname = A.text(acc[0].targets[0] if isinstance(acc[0], ast.Assign) else acc[0].target)
+            from0 = any(A.text(i_.targets[0]) == accname and A.callee_attr(i_.value) == (A.callee_attr([x for x in ast.walk(acc[0]) if isinstance(x, ast.Call)][0]))
+                        for i_ in init0)
+            it = A.text(lp.iter)
+            ok = (it == f"{me}.envs[1:]") if from0 else (it == f"{me}.envs")
+            chk.verdict("FF10", (f, lp), f"Env_sum.{name}: accumulator {'starts from member 0' if from0 else 'starts empty'}, loop over `{it}`", True if ok else False,
+                        f"Env_sum.{name}(): the accumulator {'already holds the contribution of member 0' if from0 else 'starts empty'} but the loop runs over `{it}`: "
+                        f"{'member 0 is counted twice' if from0 else 'member 0 is left out'} -- a sum of operators / states enters with wrong weights "
+                        f"(its sibling methods loop over `{me}.envs[1:]`)")
+    P = prog.cls(PAR, "_MpsMpoParent")
+    au = P.methods.get("__array_ufunc__")
+    if au is not None:
+        muls = [c for c in A.calls(au.node) if A.callee_attr(c) == "__mul__" and len(c.args) == 1]
+        b = A.local_bindings(au.node)
+        for c in muls:
+            a0 = c.args[0]
+            unpacked = isinstance(a0, ast.Name) and any(k == "unpack" or (k == "assign") for st, v, k in b.get(a0.id, []))
+            chk.verdict("FF10", (au, c), f"__array_ufunc__: `{A.short(c, 50)}` passes the numpy scalar unchanged", True if unpacked else False,
+                        f"__array_ufunc__: the scalar is handed to __mul__ as `{A.text(a0)}`, not as received: a conversion such as float() keeps only "
+                        f"the real part of a complex numpy scalar (`np.exp(1j*t) * psi` becomes `cos(t) * psi`)")
 
 def run_FF9(chk):
     """FF9: where the virtual legs of a site tensor are created with add_leg, the leg that takes the *default* charge absorbs whatever
